@@ -301,7 +301,7 @@ def coerce(v: V, t) -> V:
         return V(t, (z3.BoolVal(False), coerce(v, t[1])))
     if k in ("bag", "set") and v.t[0] in ("bag", "set") and _compatible(v.t[1], t[1]):
         return V(t, v.x)
-    if k in ("bag", "set") and v.t[0] == "list":
+    if k in ("bag", "set") and v.t[0] in ("list", "tuple"):   # a concrete tuple (e.g. the empty tuple ()) viewed as the collection of its elements
         arr = z3.K(sort_of(t[1]), z3.BoolVal(False))
         for e in v.x:
             arr = z3.Store(arr, to_term(coerce(e, t[1])), z3.BoolVal(True))
